@@ -15,7 +15,7 @@ class Contract:
                  inline=False, trusted=False, pure=False, auto=True, result_fresh=True,
                  prop_of=None, notes='', cls_targs=None, verify=True, terminates=True, unroll=None,
                  reads_only=False, this_shape=None, extra_env=None, body_assumes=(), max_paths=4000,
-                 returns_ref=None, timeout_ms=None, sig_not=None, binds=None, ghost=None, ghost_on=(), nowrap=False, post_facts=(), value=None, ensures_after=(), globals=(), custom=None, facts_on=(), fn_params=None, ghost_fns=None, ghost_fn_args=None, asserts_on=(), chain=False, static_alias=None):
+                 returns_ref=None, timeout_ms=None, sig_not=None, binds=None, ghost=None, ghost_on=(), nowrap=False, post_facts=(), value=None, ensures_after=(), globals=(), custom=None, facts_on=(), fn_params=None, ghost_fns=None, ghost_fn_args=None, asserts_on=(), chain=False, static_alias=None, only_tu=False):
         self.name = name
         self.tu = tu
         self.sig = sig
@@ -60,6 +60,7 @@ class Contract:
         self.fn_params = dict(fn_params or {})
         self.ghost_fns = dict(ghost_fns or {})
         self.ghost_fn_args = dict(ghost_fn_args or {})
+        self.only_tu = only_tu     # internal linkage: the contract applies to the function of this name in c.tu only
         self.static_alias = dict(static_alias or {})   # static local name -> ghost global that stands for it
         self.chain = chain     # postconditions are proved in order, each one available for the next
         self.asserts_on = list(asserts_on)   # [(trigger, [(label, expr)])]: intermediate assertions (obligations) at a call point
@@ -119,6 +120,9 @@ def name_matches(pattern, qualname):
     return bool(rx.match(qualname))
 
 
+CURRENT_TU = [None]
+
+
 def lookup(qualname, typestr, targs=None):
     """contract matching a callee (qualified name + function type string)"""
     import fnmatch
@@ -126,6 +130,8 @@ def lookup(qualname, typestr, targs=None):
     for k in ORDER:
         c = REGISTRY[k]
         if not name_matches(c.name, qualname):
+            continue
+        if c.only_tu and CURRENT_TU[0] is not None and c.tu != CURRENT_TU[0]:
             continue
         if not sig_ok(c, typestr or ''):
             continue
